@@ -149,6 +149,21 @@ def oracle(ctx, P, s, only=None):
             ctx.fail('codes.%s.match' % a, [s], 'accepts exactly when one of %s accepts (%s)' % (bs, rhs), lhs,
                      note='union not exact', replay_py='from athlib import codes\nresult = (codes.%s.match(%r) is not None, [n for n in %r if getattr(codes,n).match(%r)])' % (a, s, bs, s))
             bad = True
+    if not only and 'PAT_EVENT_CODE' in P:
+        # the public checker is the general pattern under another name
+        try:
+            if '_athlib' not in globals():
+                vlib.use_repo()
+                import athlib as _a
+                globals()['_athlib'] = _a
+            pub = _athlib.check_event_code(s) is not None
+        except Exception as e:
+            pub = 'raises ' + type(e).__name__
+        if pub != m('PAT_EVENT_CODE'):
+            ctx.fail('athlib.check_event_code', [s], 'accepts exactly when the general pattern does (%s)' % m('PAT_EVENT_CODE'), pub,
+                     note='the public checker and the general pattern disagree',
+                     replay_py='from athlib import codes\nresult = (athlib.check_event_code(%r) is not None, codes.PAT_EVENT_CODE.match(%r) is not None)' % (s, s))
+            bad = True
     for k, (a, b) in DISJ.items():
         if only and k != only: continue
         if a not in P or b not in P: continue
